@@ -33,6 +33,8 @@ its handlers use (C15-E); a context-manager class used by the drivers is their h
 Round 7: (e') the text of every package exception class is computable at every raise site; a run
 packed inside a comprehension binds the handler's name in another scope; a child's PacketError
 passes through the enclosing field unchanged.
+Round 8 (F12): integer conversions of stack offsets are protected, or Packet.unpack rejects an
+offset that is not an integer; includes the Optional pair rule of C08.
 """
 import ast
 import re
